@@ -75,7 +75,7 @@ IndexOf(s, t) == IF \E i \in 1..Len(s) : s[i] = t
 FullKey(prefix, key) == IF prefix # <<>> THEN prefix \o <<".">> \o key ELSE key
 
 (* byte order of the characters behind the tokens (for sort.SliceStable on keys) *)
-Order == <<"R", "S", "#", ".", "1", "2", "3", "=", "[", "]", "a", "b", "c", "p", "q", "{", "}">>
+Order == <<"R", "S", "#", ".", "0", "1", "2", "3", "4", "5", "6", "7", "8", "9", "=", "[", "]", "a", "b", "c", "d", "e", "f", "p", "q", "{", "}">>
 Rank(t) == CHOOSE i \in 1..Len(Order) : Order[i] = t
 RECURSIVE Less(_, _)
 Less(x, y) == IF y = <<>> THEN FALSE
